@@ -210,6 +210,24 @@ def check(cls, case, rec):
         items = [body]
         K = m1 * K
         rec.label("one-item-with-multiplier")
+    elif cls == "mixed-hexahedron" and case["seed"] % 2 == 0:
+        # a second item that lives on the displacement field alone (a one-field container sharing the first field, e.g. a stiffening
+        # layer next to the three-field rubber): the unknowns are those of the first item's (u, p, J) container, the smaller matrices
+        # of the second item are padded
+        fc2 = fem.FieldContainer([fc.fields[0]])
+        um2 = fem.LinearElastic(E=0.8 * case["E"], nu=0.3)
+        body2 = fem.SolidBody(um2, fc2, density=0.5 * rho)
+        items = [body, body2]
+        n_ = int(sum(fc.fieldsizes))
+        K2 = body2.assemble.matrix().tocsr().copy()
+        M2 = body2.assemble.mass().tocsr().copy()
+        K2.resize(n_, n_)
+        M2.resize(n_, n_)
+        K = K + K2
+        M = M + M2
+        body2 = fem.SolidBody(um2, fem.FieldContainer([fc.fields[0]]), density=0.5 * rho)
+        items = [body, body2]
+        rec.label("second-item-with-fewer-fields")
     # the pencil handed to the eigensolver is recorded (felupe's own part of the analysis), then solved by scipy as usual
     from scipy.sparse.linalg import eigsh
 
